@@ -158,7 +158,7 @@ func (e *Engine) checkFresh(l *Ledger, roots []*Node, when string) error {
 		if err != nil {
 			return e.viol("%s: a new storage over the ledger cannot open root %s: %v", when, r.Root, err)
 		}
-		if err := cmpValue(v, r, fmt.Sprintf("%s: root#%d from a new storage", when, r.ID), CmpOpts{CheckVID: true}); err != nil {
+		if err := cmpValue(v, r, fmt.Sprintf("%s: root#%d from a new storage", when, r.ID), e.co()); err != nil {
 			return e.viol("%v", err)
 		}
 	}
@@ -197,7 +197,7 @@ func (e *Engine) CompareAll() error {
 		if err != nil {
 			return err
 		}
-		if err := cmpValue(v, r, fmt.Sprintf("root#%d", r.ID), CmpOpts{CheckVID: true}); err != nil {
+		if err := cmpValue(v, r, fmt.Sprintf("root#%d", r.ID), e.co()); err != nil {
 			return e.viol("%v", err)
 		}
 		if r.IsMap {
@@ -217,7 +217,7 @@ func (e *Engine) CompareAll() error {
 			if n.IsMap {
 				v = n.HM
 			}
-			if err := cmpValue(v, n, fmt.Sprintf("handle of nested#%d", n.ID), CmpOpts{CheckVID: true}); err != nil {
+			if err := cmpValue(v, n, fmt.Sprintf("handle of nested#%d", n.ID), e.co()); err != nil {
 				return e.viol("%v", err)
 			}
 		}
@@ -233,9 +233,9 @@ func (e *Engine) VerifyAll() error {
 		}
 		var err error
 		if r.IsMap {
-			err = atree.VerifyMap(r.HM, r.Addr, r.TI, CompareTI, HIP, true)
+			err = atree.VerifyMap(r.HM, r.Addr, r.TI, CompareTI, e.CB.PlainHIP, true)
 		} else {
-			err = atree.VerifyArray(r.HA, r.Addr, r.TI, CompareTI, HIP, true)
+			err = atree.VerifyArray(r.HA, r.Addr, r.TI, CompareTI, e.CB.PlainHIP, true)
 		}
 		if err != nil {
 			return e.viol("in-repo verifier rejects root#%d: %v", r.ID, err)
